@@ -3,6 +3,8 @@ package main
 // Bindings of the five maps and the three key-value trees, and the tree shapes (in ranks).
 
 import (
+	"cmp"
+	"encoding/json"
 	"fmt"
 	"sort"
 	"strconv"
@@ -13,7 +15,10 @@ import (
 	"github.com/emirpasic/gods/v2/maps/linkedhashmap"
 	"github.com/emirpasic/gods/v2/maps/treebidimap"
 	"github.com/emirpasic/gods/v2/maps/treemap"
+	"github.com/emirpasic/gods/v2/queues/priorityqueue"
+	"github.com/emirpasic/gods/v2/sets/treeset"
 	"github.com/emirpasic/gods/v2/trees/avltree"
+	"github.com/emirpasic/gods/v2/trees/binaryheap"
 	"github.com/emirpasic/gods/v2/trees/btree"
 	rbt "github.com/emirpasic/gods/v2/trees/redblacktree"
 )
@@ -214,6 +219,13 @@ func bindMapCommon[K, V comparable](d *drv, m mapAPI[K, V], ck *codec[K], cv *co
 	d.keys = func() []int { return decs(d, ck, m.Keys()) }
 	d.put = func(k, v int) { m.Put(ck.enc(k), cv.enc(v)) }
 	d.remove = func(k int) { m.Remove(ck.enc(k)) }
+	d.goMapJSON = func() ([]byte, error) {
+		mm := map[K]V{}
+		for _, k := range m.Keys() {
+			mm[k], _ = m.Get(k)
+		}
+		return json.Marshal(mm)
+	}
 	d.get = func(k int) (int, bool) {
 		v, ok := m.Get(ck.enc(k))
 		if !ok {
@@ -234,7 +246,10 @@ func hashMapEntries[K, V comparable](d *drv, m *hashmap.Map[K, V], ck *codec[K],
 	return out
 }
 
-func constructMap[K, V comparable](d *drv, ck *codec[K], cv *codec[V]) {
+func constructMap[K, V comparable](d *drv, ck *codec[K], cv *codec[V], ct *ctors[K, V]) {
+	if ct == nil {
+		ct = &ctors[K, V]{}
+	}
 	key := func(k K) int { return dec(d, ck, k) }
 	val := func(v V) int { return dec(d, cv, v) }
 	kcmp := ck.cmpCfg(d.cfg.KRev, d.cfg.KTie)
@@ -246,6 +261,9 @@ func constructMap[K, V comparable](d *drv, ck *codec[K], cv *codec[V]) {
 		d.fingerprint = func() string { return "HM" + fmt.Sprint(hashMapEntries(d, m, ck, cv)) }
 	case "TreeMap":
 		m := treemap.NewWith[K, V](kcmp)
+		if ct.treeMap != nil {
+			m = ct.treeMap()
+		}
 		bindMapCommon[K, V](d, m, ck, cv)
 		d.iterF = func() [][2]int { return walkKeyF[K, V](d, m.Iterator(), ck, cv) }
 		d.iterB = func() [][2]int { return walkKeyB[K, V](d, m.Iterator(), ck, cv) }
@@ -273,17 +291,15 @@ func constructMap[K, V comparable](d *drv, ck *codec[K], cv *codec[V]) {
 				return false
 			}
 			f, _, _, _ := ord.VerifChain(walkLimit)
-			o := sortedInts(decs(d, ck, f))
-			t := tableEntries()
-			if len(t) != len(o) {
-				return false
-			}
-			for i := range t {
-				if t[i][0] != o[i] || (i > 0 && o[i] == o[i-1]) {
+			tbl := m.VerifTable()
+			seen := map[K]bool{}
+			for _, k := range f { // compared with ==: -0 and +0 are the same key
+				if _, ok := tbl[k]; !ok || seen[k] {
 					return false
 				}
+				seen[k] = true
 			}
-			return true
+			return len(tbl) == len(f)
 		}
 		d.fingerprint = func() string { return "LHM" + fmt.Sprint(tableEntries()) + dllFP(d, m.VerifOrdering(), ck) }
 	case "HashBidiMap":
@@ -302,6 +318,9 @@ func constructMap[K, V comparable](d *drv, ck *codec[K], cv *codec[V]) {
 		}
 	case "TreeBidiMap":
 		m := treebidimap.NewWith[K, V](kcmp, cv.cmpCfg(d.cfg.VRev, d.cfg.VTie))
+		if ct.treeBidi != nil {
+			m = ct.treeBidi()
+		}
 		bindMapCommon[K, V](d, m, ck, cv)
 		d.getKey = func(v int) (int, bool) {
 			k, ok := m.GetKey(cv.enc(v))
@@ -322,6 +341,9 @@ func constructMap[K, V comparable](d *drv, ck *codec[K], cv *codec[V]) {
 		}
 	case "RedBlackTree":
 		t := rbt.NewWith[K, V](kcmp)
+		if ct.rbt != nil {
+			t = ct.rbt()
+		}
 		bindMapCommon[K, V](d, t, ck, cv)
 		d.iterF = func() [][2]int { return walkKeyF[K, V](d, t.Iterator(), ck, cv) }
 		d.iterB = func() [][2]int { return walkKeyB[K, V](d, t.Iterator(), ck, cv) }
@@ -329,6 +351,9 @@ func constructMap[K, V comparable](d *drv, ck *codec[K], cv *codec[V]) {
 		d.fingerprint = func() string { return fmt.Sprintf("RB%s size=%d", rbShape(t.Root, key, val), t.Size()) }
 	case "AVLTree":
 		t := avltree.NewWith[K, V](kcmp)
+		if ct.avl != nil {
+			t = ct.avl()
+		}
 		bindMapCommon[K, V](d, t, ck, cv)
 		d.iterF = func() [][2]int { return walkKeyF[K, V](d, t.Iterator(), ck, cv) }
 		d.iterB = func() [][2]int { return walkKeyB[K, V](d, t.Iterator(), ck, cv) }
@@ -336,6 +361,9 @@ func constructMap[K, V comparable](d *drv, ck *codec[K], cv *codec[V]) {
 		d.fingerprint = func() string { return fmt.Sprintf("AVL%s size=%d", avlShape(t.Root, key, val), t.Size()) }
 	case "BTree":
 		t := btree.NewWith[K, V](d.cfg.Order, kcmp)
+		if ct.btree != nil {
+			t = ct.btree(d.cfg.Order)
+		}
 		bindMapCommon[K, V](d, t, ck, cv)
 		d.iterF = func() [][2]int { return walkKeyF[K, V](d, t.Iterator(), ck, cv) }
 		d.iterB = func() [][2]int { return walkKeyB[K, V](d, t.Iterator(), ck, cv) }
@@ -343,5 +371,30 @@ func constructMap[K, V comparable](d *drv, ck *codec[K], cv *codec[V]) {
 		d.fingerprint = func() string {
 			return fmt.Sprintf("BT%s size=%d m=%d", btShape(t.Root, key, val), t.Size(), t.VerifOrder())
 		}
+	}
+}
+
+// ctors: constructors that replace NewWith (the DEFAULT constructors of the cmp.Ordered types)
+type ctors[K comparable, V comparable] struct {
+	treeSet  func() *treeset.Set[K]
+	treeMap  func() *treemap.Map[K, V]
+	treeBidi func() *treebidimap.Map[K, V]
+	rbt      func() *rbt.Tree[K, V]
+	avl      func() *avltree.Tree[K, V]
+	btree    func(order int) *btree.Tree[K, V]
+	heap     func() *binaryheap.Heap[K]
+	pq       func() *priorityqueue.Queue[K]
+}
+
+func defaultCtors[K, V cmp.Ordered]() *ctors[K, V] {
+	return &ctors[K, V]{
+		treeSet:  func() *treeset.Set[K] { return treeset.New[K]() },
+		treeMap:  treemap.New[K, V],
+		treeBidi: treebidimap.New[K, V],
+		rbt:      rbt.New[K, V],
+		avl:      avltree.New[K, V],
+		btree:    btree.New[K, V],
+		heap:     binaryheap.New[K],
+		pq:       priorityqueue.New[K],
 	}
 }
